@@ -33,7 +33,7 @@ pub struct HistEngine {
 
 impl HistEngine {
     fn opts(&self) -> HistOpts {
-        HistOpts { focus: self.focus, snapshot: true, trace: false, huge_hints: self.huge_hints, alloc_faults: self.alloc_faults }
+        HistOpts { focus: self.focus, snapshot: true, trace: false, huge_hints: self.huge_hints, alloc_faults: self.alloc_faults, amplify: true }
     }
 }
 
@@ -258,7 +258,7 @@ pub fn engine_of(prop: &str) -> Option<Box<dyn Engine>> {
         "C01" => Box::new(hist("C01", Some(Kind::Pq), 400_000, 8000000)),
         "C02" => Box::new(hist("C02", Some(Kind::Dpq), 400_000, 8000000)),
         "C03" => Box::new(hist("C03", None, 400_000, 8000000)),
-        "C04" => Box::new(hist("C04", None, 400_000, 8000000)),
+        "C04" => Box::new(HistEngine { huge_hints: true, ..hist("C04", None, 400_000, 8000000) }),
         "C06" => Box::new(hist("C06", None, 300_000, 5333333)),
         "C08" => Box::new(Multi {
             prop: "C08",
